@@ -35,6 +35,7 @@ type tcase struct {
 	mid   [][3]*big.Int
 	class string // ok | err | panic | hang
 	root  *big.Int
+	failK int // > 0: MerklizeJSONLD with a provided tree whose failK-th Add fails
 	input any
 }
 
@@ -85,7 +86,9 @@ func (c *tcase) trie(items []kv, lvl int) (*big.Int, error) {
 // treeCase runs the pipeline of MerklizeJSONLD from the dataset on (entries, key of every
 // entry, AddEntriesToMerkleTree into a fresh 40-level tree) under a recording hasher.
 // wantRoot (may be nil) is MerklizeJSONLD's root for the document the dataset came from.
-func (d *drv) treeCase(ds *ld.RDFDataset, hi int, in failInput, wantRoot string, nOrders int) {
+// docObs (may be nil): what MerklizeJSONLD itself returned for the document the dataset came
+// from; when given it is the observation the Coq model is compared with.
+func (d *drv) treeCase(ds *ld.RDFDataset, hi int, in failInput, wantRoot string, nOrders int, docObs ...*obs) {
 	d.frMu.Lock()
 	for _, s := range mzrun.DoubleLexicals(ds) {
 		d.fr.AddStr(s)
@@ -143,10 +146,42 @@ func (d *drv) treeCase(ds *ld.RDFDataset, hi int, in failInput, wantRoot string,
 			return
 		}
 	}
+	if len(docObs) > 0 && docObs[0] != nil {
+		switch docObs[0].Class {
+		case "ok":
+			c.class = "ok"
+			c.root, _ = new(big.Int).SetString(docObs[0].Root, 10)
+		case "err":
+			c.class = "err"
+		default:
+			return
+		}
+	}
 	names := mzrun.GraphOrder(ds, nil)
 	orders := [][]string{names}
 	for len(orders) < nOrders {
 		orders = append(orders, mzrun.GraphOrder(ds, d.rng.Shuffle))
+	}
+	// the same document with a provided tree whose k-th Add fails (merklize_tree_ft)
+	if in.Kind == "doc-dataset" && in.Doc != "" && o.Class == "ok" && len(pairs) > 0 {
+		k := 1 + d.rng.Intn(len(pairs)+1) // len+1: no call fails
+		inner, err := newTree()
+		if err == nil {
+			ft := &failTree{inner: merklize.MerkleTreeSQLAdapter(inner), k: k}
+			mzf, mo := mzrun.Merklize([]byte(in.Doc), d.opts(hi, merklize.WithMerkleTree(ft))...)
+			d.rep.Evaluations++
+			fc := *c
+			fc.failK, fc.order, fc.class = k, names, mo.Class
+			if mo.Class == "ok" {
+				fc.root = mzf.Root().BigInt()
+			}
+			ci := in
+			ci.Order, ci.Repeats, ci.Note = names, k, "failing-add"
+			fc.input = ci
+			if mo.Class == "ok" || mo.Class == "err" {
+				d.tcases = append(d.tcases, &fc)
+			}
+		}
 	}
 	for _, ord := range orders {
 		cc := *c
@@ -197,14 +232,18 @@ func (sh *shared) writeTreeShards(rep interface {
 		if hi > n {
 			hi = n
 		}
-		f := coqgen.NewFile("From GSP Require Import Value.Time Value.Model Value.Run RDF.Model RDF.Run RDF.OrdTree SMT.Model SMT.Run RDF.OrdRun.")
+		f := coqgen.NewFile("From GSP Require Import Value.Time Value.Model Value.Run RDF.Model RDF.Run RDF.OrdTree RDF.OrdFail SMT.Model SMT.Run RDF.OrdRun.")
 		name := fmt.Sprintf("%s/cases_C03_t%03d.v", outDir, s)
 		var cs []string
 		for i := lo; i < hi; i++ {
 			c := cases[i]
 			id := 100000 + i
 			f.Add(fmt.Sprintf("Definition h%d : raw_hasher := %s.", i, c.rec.Coq(f)))
-			cs = append(cs, fmt.Sprintf("mkt %d h%d\n  %s\n  %s\n  %s\n  (%s)", id, i, tabCoq(c.leaf), tabCoq(c.mid),
+			ctor := "mkt " + fmt.Sprint(id)
+			if c.failK > 0 {
+				ctor = fmt.Sprintf("mktf %d %d", id, c.failK)
+			}
+			cs = append(cs, fmt.Sprintf("%s h%d\n  %s\n  %s\n  %s\n  (%s)", ctor, i, tabCoq(c.leaf), tabCoq(c.mid),
 				mzrun.DatasetCoq(f, c.ds, c.order), c.obsCoq()))
 			rep.Case(name, id, c.input)
 		}
